@@ -118,7 +118,7 @@ class PipelineSim(WorldBase):
         return {"mode": prop, "max_events": 600,
                 "aborts": rng.choice(["all", "all", "sample"]),
                 "max_abort_points": 60 if tier == "quick" else 400,
-                "kind": rng.choice(["buffet", "buffet", "cache", "cache", "filter", "combine"])}
+                "kind": rng.choice(["buffet", "buffet", "cache", "cache", "filter", "combine", "kernel", "kernel"])}
 
     def __init__(self, prop, cfg, scratch):
         super().__init__(prop, cfg, scratch)
@@ -170,6 +170,23 @@ class PipelineSim(WorldBase):
     def _plan(self, g):
         kind = self.cfg["kind"]
         evs = []
+        if kind == "kernel":
+            # traces of a real kernel (Z[m,n] += A[m,k] * B[k,n], Gustavson order) produced by the real Metrics
+            M, K, N = g.randint(1, 3), g.randint(1, 4), g.randint(2, 5)
+            ka = {"M": M, "K": K, "N": N, "seedA": g.randrange(1000), "seedB": g.randrange(1000),
+                  "dA": g.choice([0.4, 0.8, 1.0]), "dB": g.choice([0.4, 0.8, 1.0])}
+            evs.append(["ktrace", ka])
+            which = g.choice(["Z", "Z", "B", "A", "BK"])
+            fn = "buffet" if which == "Z" or g.random() < 0.5 else "cache"
+            rank = {"Z": "N", "B": "N", "A": "K", "BK": "K"}[which]
+            b = {"tensor": which, "rank": rank, "type": "payload"}
+            outer = {"N": ["M", "K"], "K": ["M"]}[rank]
+            if fn == "buffet":
+                b["evict-on"] = g.choice(["root"] + outer)
+            le = g.choice([1, 1, 2, 3])
+            evs.append(["call", {"fn": fn, "bindings": [b], "tensors": [which], "line_elems": le,
+                                 "cap_lines": g.choice([0, 1, 2, 3, 5, 10 ** 4]) if fn == "cache" else 10 ** 4, "id": "c0"}])
+            return evs
         if kind in ("buffet", "cache"):
             nr = g.randint(1, 3)
             order = RANKS[3 - nr:]
@@ -285,6 +302,8 @@ class PipelineSim(WorldBase):
         try:
             if kind == "trace":
                 return self.ev_trace(ev[1])
+            if kind == "ktrace":
+                return self.ev_ktrace(ev[1])
             if kind == "stale":
                 return self.ev_stale(ev[1])
             if kind == "call":
@@ -308,6 +327,55 @@ class PipelineSim(WorldBase):
                     f.write(",".join(str(x) for x in r) + "\n")
         self.traces[spec["tensor"]] = spec
         return {"rows": len(spec["rows"]), "wrows": len(spec["wrows"] or [])}
+
+    def ev_ktrace(self, a):
+        """run the real kernel under the real Metrics and adopt its trace files as inputs"""
+        from fibertree.core.metrics import Metrics
+        M, K, N = a["M"], a["K"], a["N"]
+        A = Tensor.fromRandom(["M", "K"], [M, K], [1.0, a["dA"]], seed=a["seedA"])
+        B = Tensor.fromRandom(["K", "N"], [K, N], [1.0, a["dB"]], seed=a["seedB"])
+        Z = Tensor(rank_ids=["M", "N"], shape=[M, N])
+        pre = os.path.join(self.scratch, "k")
+        Metrics.beginCollect(pre)
+        try:
+            for r, t in (("N", "populate_read_0"), ("N", "populate_write_0"), ("N", "populate_1"),
+                         ("K", "intersect_0"), ("K", "intersect_1")):
+                Metrics.trace(r, t)
+            for m, (z_n, a_k) in Z.getRoot() << A.getRoot():
+                for k, (a_val, b_n) in a_k & B.getRoot():
+                    for n, (z_ref, b_val) in z_n << b_n:
+                        z_ref += a_val * b_val
+        finally:
+            Metrics.endCollect()
+        srcs = {"Z": ("N", "populate_read_0", "populate_write_0", Z, ["M", "K", "N"]),
+                "B": ("N", "populate_1", None, B, ["M", "K", "N"]),
+                "A": ("K", "intersect_0", None, A, ["M", "K"]),
+                "BK": ("K", "intersect_1", None, B, ["M", "K"])}
+        n = 0
+        for name, (rank, rt, wt, t, order) in srcs.items():
+            rp = f"{pre}-{rank}-{rt}.csv"
+            if not os.path.exists(rp) or os.path.getsize(rp) == 0:
+                continue
+            rows = self._parse(rp)
+            wrows = None
+            if wt is not None:
+                wp = f"{pre}-{rank}-{wt}.csv"
+                if os.path.exists(wp) and os.path.getsize(wp) > 0:
+                    wrows = self._parse(wp)
+            ids = t.getRankIds()
+            tr = ids[:ids.index(rank) + 1]
+            spec = {"tensor": name, "order": order, "tranks": [r for r in tr], "shape": [t.getShape()[ids.index(r)] for r in tr],
+                    "fmt": "C", "rows": rows, "wrows": wrows, "real": True}
+            self.ev_trace(spec)
+            n += 1
+        self.probe("real_kernel_traces", n)
+        return {"traces": n}
+
+    @staticmethod
+    def _parse(path):
+        with open(path) as f:
+            lines = f.read().splitlines()
+        return [[int(x) for x in ln.split(",")] for ln in lines[1:]]
 
     def ev_stale(self, a):
         n = 0
